@@ -19,7 +19,7 @@ CONSTANTS Scripts,       \* server scripts: sequences of [op |-> "rec", pdus |->
           PollSource, ExitOn,
           GuiWrites      \* how many input writes the GUI thread attempts
 
-\* PDU tokens: <<"bmp", k>> (a bitmap update), <<"part1", k>> / <<"part2", k>> (halves of one), <<"ult">> (disconnect
+\* PDU tokens: <<"bmp", k>> (a bitmap update), <<"bmp3", k>> (one PDU carrying three rectangles k, k+1, k+2), <<"part1", k>> / <<"part2", k>> (halves of one), <<"ult">> (disconnect
 \* provider ultimatum), <<"bad_rdp">> / <<"bad_io">> (undecodable PDU whose decode error is of the library's kind / an io kind),
 \* <<"notify">> (TLS close_notify)
 
@@ -38,8 +38,10 @@ variables script \in Scripts,
 
 define
   SelectReady == sock # <<>> \/ sockEnd # "open" \/ (PollSource = "tls_aware" /\ tlsbuf # <<>>)
-  BitmapsOf(pdus) == SelectSeq(pdus, LAMBDA p : p[1] \in {"bmp", "part2"})
-  Ids(pdus) == [i \in 1..Len(pdus) |-> pdus[i][2]]
+  BitmapsOf(pdus) == SelectSeq(pdus, LAMBDA p : p[1] \in {"bmp", "part2", "bmp3"})
+  IdsOf(p) == IF p[1] = "bmp3" THEN <<p[2], p[2] + 1, p[2] + 2>> ELSE <<p[2]>>
+  RECURSIVE Ids(_)
+  Ids(pdus) == IF pdus = <<>> THEN <<>> ELSE IdsOf(Head(pdus)) \o Ids(Tail(pdus))
 end define;
 
 process Server = "server"
@@ -85,6 +87,8 @@ begin
  ReadOne:   if err = "none" then
               if Head(tlsbuf)[1] = "bmp" then
                 forwarded := Append(forwarded, Head(tlsbuf)[2]);
+              elsif Head(tlsbuf)[1] = "bmp3" then
+                forwarded := forwarded \o IdsOf(Head(tlsbuf));   \* every rectangle of the PDU, in wire order
               elsif Head(tlsbuf)[1] = "part1" then
                 half := Head(tlsbuf)[2];             \* rest of the PDU is in a later record: keep reading
               elsif Head(tlsbuf)[1] = "part2" then
@@ -121,8 +125,10 @@ VARIABLES pc, script, sock, sockEnd, tlsbuf, mutex, sync, sent, forwarded,
 
 (* define statement *)
 SelectReady == sock # <<>> \/ sockEnd # "open" \/ (PollSource = "tls_aware" /\ tlsbuf # <<>>)
-BitmapsOf(pdus) == SelectSeq(pdus, LAMBDA p : p[1] \in {"bmp", "part2"})
-Ids(pdus) == [i \in 1..Len(pdus) |-> pdus[i][2]]
+BitmapsOf(pdus) == SelectSeq(pdus, LAMBDA p : p[1] \in {"bmp", "part2", "bmp3"})
+IdsOf(p) == IF p[1] = "bmp3" THEN <<p[2], p[2] + 1, p[2] + 2>> ELSE <<p[2]>>
+RECURSIVE Ids(_)
+Ids(pdus) == IF pdus = <<>> THEN <<>> ELSE IdsOf(Head(pdus)) \o Ids(Tail(pdus))
 
 VARIABLE writes
 
@@ -228,18 +234,22 @@ ReadOne == /\ pc["rx"] = "ReadOne"
                  THEN /\ IF Head(tlsbuf)[1] = "bmp"
                             THEN /\ forwarded' = Append(forwarded, Head(tlsbuf)[2])
                                  /\ UNCHANGED << err, half >>
-                            ELSE /\ IF Head(tlsbuf)[1] = "part1"
-                                       THEN /\ half' = Head(tlsbuf)[2]
-                                            /\ UNCHANGED << forwarded, err >>
-                                       ELSE /\ IF Head(tlsbuf)[1] = "part2"
-                                                  THEN /\ forwarded' = Append(forwarded, Head(tlsbuf)[2])
-                                                       /\ half' = 0
-                                                       /\ err' = err
-                                                  ELSE /\ IF Head(tlsbuf)[1] = "ult" \/ Head(tlsbuf)[1] = "bad_rdp"
-                                                             THEN /\ err' = "rdp"
-                                                             ELSE /\ err' = "io"
+                            ELSE /\ IF Head(tlsbuf)[1] = "bmp3"
+                                       THEN /\ forwarded' = forwarded \o IdsOf(Head(tlsbuf))
+                                            /\ UNCHANGED << err, half >>
+                                       ELSE /\ IF Head(tlsbuf)[1] = "part1"
+                                                  THEN /\ half' = Head(tlsbuf)[2]
                                                        /\ UNCHANGED << forwarded, 
-                                                                       half >>
+                                                                       err >>
+                                                  ELSE /\ IF Head(tlsbuf)[1] = "part2"
+                                                             THEN /\ forwarded' = Append(forwarded, Head(tlsbuf)[2])
+                                                                  /\ half' = 0
+                                                                  /\ err' = err
+                                                             ELSE /\ IF Head(tlsbuf)[1] = "ult" \/ Head(tlsbuf)[1] = "bad_rdp"
+                                                                        THEN /\ err' = "rdp"
+                                                                        ELSE /\ err' = "io"
+                                                                  /\ UNCHANGED << forwarded, 
+                                                                                  half >>
                       /\ tlsbuf' = Tail(tlsbuf)
                       /\ IF half' # 0
                             THEN /\ pc' = [pc EXCEPT !["rx"] = "Fill"]
